@@ -143,6 +143,7 @@ type XStyle struct {
 	CloseWS   int // white space before the closing '>' of start tags
 	Eq        int // white space around the '=' of attributes
 	ItemLang  int // 1: items of Seq / Bag arrays carry an xml:lang qualifier too
+	Container int // k>0: arrays are written in another of the three RDF containers (Seq -> Bag -> Alt -> Seq, k steps)
 }
 
 var WSMenu = []string{"\n   ", " ", "\n\n", "  \n ", "\t", "\r\n   ", strings.Repeat(" ", 37), strings.Repeat(" ", 130), strings.Repeat(" ", 600)}
@@ -213,6 +214,7 @@ func ChooseXStyle(x Chooser, nprops int) XStyle {
 		CloseWS:   x.Choose("xmp.space-before-close", 3),
 		Eq:        x.Choose("xmp.space-around-equals", len(eqMenu)),
 		ItemLang:  x.Choose("xmp.lang-qualifier-on-list-items", 2),
+		Container: x.Choose("xmp.other-rdf-container", 3),
 	}
 	if nprops > 1 {
 		st.Swap = x.Choose("xmp.swap-neighbours", nprops)
@@ -319,7 +321,11 @@ func (rec *XRec) Serialize(st XStyle) []byte {
 		}
 		for _, a := range arrs {
 			n := a.Spec.NS + ":" + a.Spec.Name
-			sb.WriteString("<" + n + ">" + ind + "<rdf:" + a.Spec.Container + ">" + ind)
+			cont := a.Spec.Container
+			for k := 0; k < st.Container; k++ {
+				cont = map[string]string{"Seq": "Bag", "Bag": "Alt", "Alt": "Seq"}[cont]
+			}
+			sb.WriteString("<" + n + ">" + ind + "<rdf:" + cont + ">" + ind)
 			for k, it := range a.Items {
 				if a.Spec.Lang {
 					lang := "x-default"
@@ -333,7 +339,7 @@ func (rec *XRec) Serialize(st XStyle) []byte {
 					sb.WriteString("<rdf:li>" + esc(it) + "</rdf:li>" + ind)
 				}
 			}
-			sb.WriteString("</rdf:" + a.Spec.Container + ">" + ind + "</" + n + ">" + ind)
+			sb.WriteString("</rdf:" + cont + ">" + ind + "</" + n + ">" + ind)
 		}
 		sb.WriteString("</rdf:Description>" + ind)
 	}
